@@ -193,6 +193,9 @@ def run(spec, R):
         # erasure laws
         F = tuple(rng.sample(names_pool, rng.randint(0, 3)))
         G = tuple(rng.sample(names_pool, rng.randint(0, 2)))
+        trip = [refcat.feat_print(x[2]) for x in refcat.atoms(a) if x[2] is not None and x[2][0] == 'T']
+        if trip and rng.random() < 0.3:
+            F = F + (rng.choice(trip),)               # a three-part feature named by its own text
         R.case((a, 'clear', F, G), a[0] == 'F')
         try:
             c1 = A.clear_features(*F)                                # contract: equals reference erasure
